@@ -33,7 +33,7 @@ from ..mutate import mutate, remove_stmts, replace_expr, replace_stmt, parse_stm
 from ..rules import tainted_names, mentions
 from ..rx import Rx, module_pattern
 from ..x_secflow import (Reach, Escapes, is_unpack, strip_wrappers, same, parsed_facts, fact_geq0, equality_fact,
-                         tests_reaching, names_of, edge_dominates, absent_or_unknown, own_nodes, concat_canon, positional_call)
+                         tests_reaching, names_of, edge_dominates, absent_or_unknown, own_nodes, concat_canon, concat_to_join, positional_call)
 
 TECHNIQUE = "must-pass-through (guard dominance) on the CFG with reaching-definition expansion, exception-escape analysis against a frozen raise model, encoder/decoder role tables, regex language inclusion"
 EXPLANATION = (
@@ -848,6 +848,8 @@ def encoder_tables(ck, enc):
         if ver is None:
             raise AnalysisError("create_signed_value: a value is returned outside a 'version == K' branch")
         E = concat_canon(cx.rd.expand(r.ast.value, r))
+        if not is_join(E) and not (isinstance(E, ast.BinOp) and isinstance(E.op, ast.Add) and is_signer_call(strip_wrappers(E.right)) and is_join(strip_wrappers(E.left))):
+            E = concat_to_join(E)  # a + SEP + b + SEP + c is the same field sequence as SEP.join([a, b, c])
         if is_join(E):
             elts = [classify_enc_elt(enc, x) for x in flatten_elts(E.args[0])]
             sig = [x for x in elts if x[0] == "sig"]
